@@ -16,6 +16,7 @@ EXPLANATION = (
     "that the allow-listed core functions do not allocate (trusted) nor hardware reordering beyond the fences."
     " R02.5 ThreadAllocInfo::clear is unconditional and total (whole struct from new(), or every field). R02.6 the overhead subtracted from a sample is computed from that same raw sample's allocation info. R02.7 every measurement a Timer method caches in a static lives in a per-kind array read at self.kind() as usize and is initialised by measuring with the captured timer.")
 EXPLANATION += (' R02.8 (= R19.1/R19.2) per-sample allocation snapshots and counter values are discarded with the timings of the tuning rounds.')
+EXPLANATION += (" R02.9 every __private::Arg::get (run inside the generated timed closure) is a plain copy / reborrow. R02.10 (expansions) the generated runner's bench argument yields the benchmarked call's value.")
 NOT_DECIDED = ["that allow-listed core leaf functions do not allocate (trusted)",
                "hardware reordering beyond the stated fences"]
 TRUSTED = ["core::iter / MaybeUninit / UnsafeCell / black_box / mem::forget are allocation-free leaf functions"]
